@@ -146,14 +146,57 @@ func (x *Exec) number(body ast.Node) {
 	var walk func(n ast.Node, top bool)
 	nl, ngo, nfn, nc := 0, 0, 0, 0
 	goLits := map[*ast.FuncLit]bool{}
+	// a literal is a goroutine body when it is the operand of a go statement, or when it is
+	// bound to a local that is used for nothing but `go name()`: naming a goroutine body or
+	// inlining a named one does not change its key
+	bound := map[types.Object]*ast.FuncLit{}
+	goUse := map[types.Object]int{}
+	otherUse := map[types.Object]int{}
+	goCallee := map[*ast.Ident]bool{}
 	ast.Inspect(body, func(n ast.Node) bool {
-		if g, ok := n.(*ast.GoStmt); ok {
-			if fl, ok := g.Call.Fun.(*ast.FuncLit); ok {
+		switch n := n.(type) {
+		case *ast.GoStmt:
+			if fl, ok := n.Call.Fun.(*ast.FuncLit); ok {
 				goLits[fl] = true
+			}
+			if id, ok := n.Call.Fun.(*ast.Ident); ok {
+				goCallee[id] = true
+			}
+		case *ast.AssignStmt:
+			for i, l := range n.Lhs {
+				if id, ok := l.(*ast.Ident); ok && i < len(n.Rhs) {
+					if fl, ok := ast.Unparen(n.Rhs[i]).(*ast.FuncLit); ok {
+						if o := x.info.ObjectOf(id); o != nil {
+							if _, dup := bound[o]; dup {
+								otherUse[o]++
+							}
+							bound[o] = fl
+						}
+					}
+				}
 			}
 		}
 		return true
 	})
+	ast.Inspect(body, func(n ast.Node) bool {
+		if id, ok := n.(*ast.Ident); ok {
+			if o := x.info.Uses[id]; o != nil {
+				if _, isBound := bound[o]; isBound {
+					if goCallee[id] {
+						goUse[o]++
+					} else {
+						otherUse[o]++
+					}
+				}
+			}
+		}
+		return true
+	})
+	for o, fl := range bound {
+		if goUse[o] > 0 && otherUse[o] == 0 {
+			goLits[fl] = true
+		}
+	}
 	walk = func(n ast.Node, top bool) {
 		ast.Inspect(n, func(m ast.Node) bool {
 			switch m := m.(type) {
@@ -254,6 +297,23 @@ func (x *Exec) stmt(st *State, fr *Frame, s ast.Stmt, k func(*State)) {
 			for _, o := range fr.results {
 				res = append(res, x.getVar(st, o))
 			}
+		} else if ce, isCall := ast.Unparen(firstOr(s.Results)).(*ast.CallExpr); isCall && len(s.Results) == 1 && x.hasEffect(ce) {
+			// return f(...): the callee may fork (branches of an inlined helper): continuation style
+			x.curRet = "end"
+			if k2, ok := x.retOrd[s]; ok {
+				x.curRet = fmt.Sprint(k2)
+			}
+			cr := x.curRet
+			x.callK(st, fr, ce, func(s2 *State, rs []Term) {
+				for i := range rs {
+					if fr.sig != nil && i < fr.sig.Results().Len() {
+						rs[i] = x.convertTo(s2, rs[i], fr.sig.Results().At(i).Type(), s.Results[0])
+					}
+				}
+				x.curRet = cr
+				fr.ret(s2, rs)
+			})
+			return
 		} else if len(s.Results) == 1 && fr.sig != nil && fr.sig.Results().Len() > 1 {
 			res = x.exprs(st, fr, s.Results[0])
 		} else {
@@ -1244,4 +1304,11 @@ func (x *Exec) countingLoopFacts(s *ast.ForStmt) []Clause {
 		out = append(out, Clause{Src: "derived for the counting loop: " + t, Expr: e, Label: "counting"})
 	}
 	return out
+}
+
+func firstOr(es []ast.Expr) ast.Expr {
+	if len(es) == 0 {
+		return nil
+	}
+	return es[0]
 }
